@@ -113,7 +113,8 @@ class VCSStrategyGit(VCSStrategy):
             "-z",
         ]
         result = execute_command(command, _LOGGER, cwd=self.root)
-        all_files = result.stdout.decode("utf-8").split("\0")
+        # File names are bytes. Decode them the way the file system does.
+        all_files = os.fsdecode(result.stdout).split("\0")
         return {Path(file_) for file_ in all_files}
 
     def _find_submodules(self) -> set[Path]:
